@@ -292,3 +292,18 @@ def routes_for(kind, label, text, password=None, generated=None, cert_file=None,
         out.append(("private-file+cert", c))
         out.append(("public-bytes:cert-blob", cls(data=c.public_blob.key_blob)))
     return out
+
+
+def guarded(ctx, stream):
+    """a stream that trips over something unexpected (in the real code or in the harness) is a broken tie to be
+    decided like any other - never an infrastructure error that hides the result"""
+    import traceback
+    from pv.core import InfraError, exc_site
+
+    try:
+        stream(ctx)
+    except InfraError:
+        raise
+    except Exception as e:  # noqa: BLE001
+        ctx.broken.append({"kind": "harness-exception", "what": "%s: %s" % (stream.__name__, exc_site(e)),
+                           "detail": "".join(traceback.format_exception(type(e), e, e.__traceback__))[-1500:]})
